@@ -3,6 +3,8 @@ C10 — unknown keys are ignored, rejected or captured exactly as configured (de
 Theorems about `loadKeysWith`, the `for json_key in o:` loop of the generated loader.
 -/
 import DW.Model.Load
+import DW.Model.LoadV1
+import DW.Lemmas.V1
 
 namespace DW.Props.C10
 open DW
@@ -247,5 +249,227 @@ theorem C10_mapped_unaffected (fl : S → JVal → LRes) (eff : MetaCfg) (ci : C
             subst h1
             obtain ⟨ca2, h2⟩ := ih kw' ca' hrest
             exact ⟨ca2, by simp [List.filter, hunk, loadKeysWith, hk, bind, Except.bind, hf, h2, pure, Except.pure]⟩
+
+/-! ### v1 engine
+
+The v1 class function does not walk the document: it looks the constructor fields up, counts the hits in `i` (plus the
+whitelisted tag key when present) and uses `len(o) != i` as the test for "there is a key I do not know"; only then does it
+compute `set(o) - aliases` (RAISE / WARN) or the catch-all comprehension. -/
+
+open DW.Lemmas.V1
+
+/-- the conditions under which `len(o) != i` is an exact test: the document is a JSON object (keys pairwise different), no two
+constructor fields (nor a field and the tag key) share a key, every constructor field has exactly one key (no key-case AUTO,
+no multi-key alias), and the class has a constructor field -/
+structure V1WellKeyed (eff : MetaCfg) (ci : ClassInfo) (kvs : List (S × JVal)) : Prop where
+  docNodup : (docKeys kvs).Nodup
+  knownNodup : (v1KnownKeys eff ci).Nodup
+  single : SingleKeyed eff ci
+  nonempty : (v1InitFields ci).isEmpty = false
+
+/-- a key of the document is unknown to the class: not a key of any constructor field, not the whitelisted tag key -/
+def v1Unknown (eff : MetaCfg) (ci : ClassInfo) (k : S) : Bool := !(v1KnownKeys eff ci).contains k
+
+/-- `len(o) != i` holds exactly when the document has an unknown key -/
+theorem C10_v1_len_test_exact (fl : S → JVal → LRes) (eff : MetaCfg) (ci : ClassInfo) (kvs : List (S × JVal))
+    (kw : List (S × PyVal)) (found : Nat) (hw : V1WellKeyed eff ci kvs) (hcount : v1Counting eff ci = true)
+    (hok : v1Fields fl eff ci kvs ci.fields = .ok (kw, found)) :
+    (kvs.length != v1Matched eff ci kvs found) = !(v1Extra eff ci kvs).isEmpty := by
+  obtain ⟨_, hn⟩ := v1Fields_ok fl eff ci kvs ci.fields kw found hok
+  have hlen := length_eq_matched_add_extra eff ci kvs found hw.docNodup hw.knownNodup hw.single hcount hw.nonempty hn
+  cases hx : v1Extra eff ci kvs with
+  | nil => simp [hx] at hlen ⊢; exact hlen
+  | cons a r =>
+    simp only [hx, List.length_cons] at hlen
+    simp only [List.isEmpty_cons, Bool.not_false, bne_iff_ne, ne_eq]
+    omega
+
+theorem find_none_of_any_false (ci : ClassInfo) (h : v1HasCatchAll ci = false) : ci.fields.find? (·.isCatchAll) = none := by
+  unfold v1HasCatchAll at h
+  rw [List.any_eq_false] at h
+  exact List.find?_eq_none.mpr h
+
+theorem raise_counts (eff : MetaCfg) (ci : ClassInfo) (h : eff.v1OnUnknown = some .raise) : v1Counting eff ci = true := by
+  simp [v1Counting, h]
+
+/-- RAISE, v1: *every* document with at least one unknown key is rejected with UnknownKeysError naming the class and exactly
+the unknown keys of the document (in document order), provided the values of the mapped fields converted. -/
+theorem C10_v1_raise_rejects (fl : S → JVal → LRes) (eff : MetaCfg) (ci : ClassInfo) (kvs : List (S × JVal))
+    (kw : List (S × PyVal)) (found : Nat) (hr : eff.v1OnUnknown = some .raise) (hca : v1HasCatchAll ci = false)
+    (hw : V1WellKeyed eff ci kvs) (hok : v1Fields fl eff ci kvs ci.fields = .ok (kw, found))
+    (hu : ∃ kv ∈ kvs, v1Unknown eff ci kv.1 = true) :
+    v1ClassWith fl eff ci (.dict kvs) = .error (.unknownKeys ci.name ((v1Extra eff ci kvs).map (·.1))) ∧
+    (v1Extra eff ci kvs).map (·.1) ≠ [] := by
+  have hne : v1Extra eff ci kvs ≠ [] := by
+    obtain ⟨kv, hm, hkv⟩ := hu
+    intro h
+    have : kv ∈ v1Extra eff ci kvs := by
+      unfold v1Extra
+      exact List.mem_filter.mpr ⟨hm, hkv⟩
+    rw [h] at this
+    simp at this
+  have htest := C10_v1_len_test_exact fl eff ci kvs kw found hw (raise_counts eff ci hr) hok
+  have hemp : (v1Extra eff ci kvs).isEmpty = false := by
+    cases hx : v1Extra eff ci kvs with
+    | nil => exact absurd hx hne
+    | cons a r => rfl
+  constructor
+  · simp [v1ClassWith, hok, bind, Except.bind, v1Finish, hca, hr, htest, hemp]
+  · intro h
+    exact hne (List.map_eq_nil_iff.mp h)
+
+/-- ... and a document *without* unknown keys is never rejected for its keys: it goes on to `cls(...)` with nothing captured -/
+theorem C10_v1_raise_accepts_clean (fl : S → JVal → LRes) (eff : MetaCfg) (ci : ClassInfo) (kvs : List (S × JVal))
+    (kw : List (S × PyVal)) (found : Nat) (hr : eff.v1OnUnknown = some .raise) (hca : v1HasCatchAll ci = false)
+    (hw : V1WellKeyed eff ci kvs) (hok : v1Fields fl eff ci kvs ci.fields = .ok (kw, found))
+    (hu : ∀ kv ∈ kvs, v1Unknown eff ci kv.1 = false) :
+    v1ClassWith fl eff ci (.dict kvs) = finishClass ci kw [] (.dict kvs) := by
+  have hnil : v1Extra eff ci kvs = [] := by
+    unfold v1Extra
+    rw [List.filter_eq_nil_iff]
+    intro kv hm
+    have := hu kv hm
+    unfold v1Unknown at this
+    rw [this]
+    simp
+  have htest := C10_v1_len_test_exact fl eff ci kvs kw found hw (raise_counts eff ci hr) hok
+  simp only [hnil, List.isEmpty_nil, Bool.not_true] at htest
+  have heq : (kvs.length == v1Matched eff ci kvs found) = true := by
+    have : ¬ (kvs.length ≠ v1Matched eff ci kvs found) := by
+      intro hne
+      have : (kvs.length != v1Matched eff ci kvs found) = true := bne_iff_ne.mpr hne
+      rw [htest] at this
+      exact absurd this (by simp)
+    simpa using this
+  simp only [v1ClassWith, hok, bind, Except.bind, v1Finish, htest, Bool.and_false, Bool.false_eq_true, ↓reduceIte]
+  exact finishKw_eq_finishClass ci kw _ _ _ (find_none_of_any_false ci hca)
+
+/-- what an UnknownKeysError of the v1 engine names: exactly the keys of the document that are unknown to the class — never
+a key of a mapped field, never the whitelisted tag key -/
+theorem C10_v1_raise_names_exactly_unknown (eff : MetaCfg) (ci : ClassInfo) (kvs : List (S × JVal)) (k : S) :
+    k ∈ (v1Extra eff ci kvs).map (·.1) ↔ (k ∈ docKeys kvs ∧ v1Unknown eff ci k = true) := by
+  unfold v1Extra docKeys v1Unknown
+  simp only [List.mem_map, List.mem_filter]
+  constructor
+  · rintro ⟨kv, ⟨hm, hp⟩, rfl⟩
+    exact ⟨⟨kv, hm, rfl⟩, hp⟩
+  · rintro ⟨⟨kv, hm, rfl⟩, hp⟩
+    exact ⟨kv, ⟨hm, hp⟩, rfl⟩
+
+/-- CATCH-ALL, v1: the catch-all argument is built from exactly the unknown pairs of the document, in document order, spelled and
+valued as given; it is assigned whenever there is such a pair — and, for a catch-all field with a plain default, *only* then
+(see `C10_v1_catchall_argument`) -/
+theorem C10_v1_catchall_exact (fl : S → JVal → LRes) (eff : MetaCfg) (ci : ClassInfo) (kvs : List (S × JVal))
+    (kw : List (S × PyVal)) (found : Nat) (hca : v1HasCatchAll ci = true)
+    (hw : V1WellKeyed eff ci kvs) (hok : v1Fields fl eff ci kvs ci.fields = .ok (kw, found)) :
+    v1ClassWith fl eff ci (.dict kvs)
+      = finishKw ci (v1WithCatchAll ci kw (!(v1Extra eff ci kvs).isEmpty)
+          ((v1Extra eff ci kvs).map (fun kv => (PyVal.str kv.1, kv.2.toPy)))) := by
+  have hcount : v1Counting eff ci = true := by simp [v1Counting, hca]
+  have htest := C10_v1_len_test_exact fl eff ci kvs kw found hw hcount hok
+  simp only [v1ClassWith, hok, bind, Except.bind, v1Finish, hca, Bool.not_true, Bool.false_and, Bool.false_eq_true, ↓reduceIte, htest]
+
+/-- what the constructor receives for the catch-all field `cf`: with unknown pairs, a dict of exactly those pairs; without any,
+`{}` for a catch-all field without plain default and *nothing* (so the default is kept) for one with a plain default -/
+theorem C10_v1_catchall_argument (ci : ClassInfo) (kw : List (S × PyVal)) (cf : FieldInfo) (extra : List (PyVal × PyVal))
+    (hcf : ci.fields.find? (·.isCatchAll) = some cf) :
+    (extra ≠ [] → v1WithCatchAll ci kw (!extra.isEmpty) extra = kw ++ [(cf.name, PyVal.map .dict extra)]) ∧
+    (cf.dflt.isNone = true → v1WithCatchAll ci kw (!([] : List (PyVal × PyVal)).isEmpty) [] = kw ++ [(cf.name, PyVal.map .dict [])]) ∧
+    (cf.dflt.isSome = true → cf.isFactory = false → v1WithCatchAll ci kw (!([] : List (PyVal × PyVal)).isEmpty) [] = kw) := by
+  refine ⟨?_, ?_, ?_⟩
+  · intro hne
+    cases extra with
+    | nil => exact absurd rfl hne
+    | cons a r => simp [v1WithCatchAll, hcf]
+  · intro hd
+    simp [v1WithCatchAll, hcf, hd]
+  · intro hd hf
+    have : cf.dflt.isNone = false := by cases h : cf.dflt <;> simp_all
+    simp [v1WithCatchAll, hcf, this, hf]
+
+/-- the tag key of a tagged class is whitelisted: it is a known key, hence never among the pairs reported or captured — unless a
+*constructor* field carries that name (then it is that field's key) -/
+theorem C10_v1_tag_key_never_extra (eff : MetaCfg) (ci : ClassInfo) (kvs : List (S × JVal))
+    (ht : v1ExpectTag eff ci = true) : ∀ kv ∈ v1Extra eff ci kvs, kv.1 ≠ v1TagKey eff := by
+  intro kv hkv heq
+  unfold v1Extra at hkv
+  have hp := (List.mem_filter.mp hkv).2
+  have : (v1KnownKeys eff ci).contains kv.1 = true := by
+    apply List.contains_iff_mem.mpr
+    unfold v1KnownKeys
+    simp [ht, heq]
+  rw [this] at hp
+  simp at hp
+
+/-- IGNORE / WARN / unset, v1, no catch-all field: unknown keys are dropped — the outcome is `cls(...)` on the mapped fields -/
+theorem C10_v1_ignore_drops (fl : S → JVal → LRes) (eff : MetaCfg) (ci : ClassInfo) (kvs : List (S × JVal))
+    (kw : List (S × PyVal)) (found : Nat) (hr : eff.v1OnUnknown ≠ some .raise) (hca : v1HasCatchAll ci = false)
+    (hok : v1Fields fl eff ci kvs ci.fields = .ok (kw, found)) :
+    v1ClassWith fl eff ci (.dict kvs) = finishClass ci kw [] (.dict kvs) := by
+  have hr' : (eff.v1OnUnknown == some KeyAct.raise) = false := by
+    cases h : eff.v1OnUnknown with
+    | none => rfl
+    | some a => cases a <;> simp_all
+  simp only [v1ClassWith, hok, bind, Except.bind, v1Finish, hr', Bool.and_false, Bool.false_and, Bool.false_eq_true, ↓reduceIte]
+  exact finishKw_eq_finishClass ci kw _ _ _ (find_none_of_any_false ci hca)
+
+theorem lookupFirst_filter_known (known : List S) (kvs : List (S × JVal)) (ks : List S) (h : ∀ k ∈ ks, k ∈ known) :
+    lookupFirst (kvs.filter (fun kv => known.contains kv.1)) ks = lookupFirst kvs ks := by
+  induction ks with
+  | nil => rfl
+  | cons k r ih =>
+    have hk : known.contains k = true := List.contains_iff_mem.mpr (h k (by simp))
+    have hr : ∀ k ∈ r, k ∈ known := fun k' hk' => h k' (by simp [hk'])
+    have hfun : (fun a : S × JVal => decide (known.contains a.1 = true ∧ (a.1 == k) = true)) = (fun a => a.1 == k) := by
+      funext a
+      cases hq : (a.1 == k) with
+      | false => simp
+      | true =>
+        have : a.1 = k := by simpa using hq
+        rw [this, hk]
+        simp
+    simp only [lookupFirst, List.find?_filter, hfun, ih hr]
+
+/-- Keys that map to no field never change the values of the mapped fields (v1): the field loop gives the same constructor
+arguments — or the same error — on the document and on the document with its unknown pairs removed. -/
+theorem C10_v1_mapped_unaffected (fl : S → JVal → LRes) (eff : MetaCfg) (ci : ClassInfo) (kvs : List (S × JVal))
+    (fs : List FieldInfo) (hfs : ∀ f ∈ fs, f ∈ ci.fields) :
+    v1Fields fl eff ci (kvs.filter (fun kv => !v1Unknown eff ci kv.1)) fs = v1Fields fl eff ci kvs fs := by
+  have hfilter : (kvs.filter (fun kv => !v1Unknown eff ci kv.1)) = kvs.filter (fun kv => (v1KnownKeys eff ci).contains kv.1) := by
+    apply List.filter_congr
+    intro kv _
+    simp [v1Unknown]
+  rw [hfilter]
+  induction fs with
+  | nil => rfl
+  | cons fi r ih =>
+    have hr : ∀ f ∈ r, f ∈ ci.fields := fun f hf => hfs f (by simp [hf])
+    simp only [v1Fields]
+    split
+    · exact ih hr
+    · rename_i hskip
+      have hin : fi ∈ v1InitFields ci := by
+        unfold v1InitFields
+        apply List.mem_filter.mpr
+        refine ⟨hfs fi (by simp), ?_⟩
+        cases hi : fi.init <;> cases hc : fi.isCatchAll <;> simp_all
+      have hkeys : ∀ k ∈ v1Keys eff fi, k ∈ v1KnownKeys eff ci := by
+        intro k hk
+        unfold v1KnownKeys
+        apply List.mem_append.mpr
+        right
+        exact List.mem_flatMap.mpr ⟨fi, hin, hk⟩
+      rw [lookupFirst_filter_known _ kvs _ hkeys, ih hr]
+
+/-- Witness (unchanged code): without the one-key-per-field condition the `len(o) != i` test misfires. A field with two
+alternative keys (`Alias('a', 'b')`, or key case AUTO) counts once however many of its spellings the document holds, so under
+RAISE a document with *no* unknown key is rejected — with an empty list of unknown keys. -/
+theorem C10_v1_raise_two_spellings_witness :
+    let ci : ClassInfo := { name := ['K'], fields := [{ name := ['x'], loadKeys := [['a'], ['b']] }] }
+    let eff : MetaCfg := { v1 := some true, v1OnUnknown := some .raise }
+    let doc : List (S × JVal) := [(['a'], .int 1), (['b'], .int 2)]
+    (∀ kv ∈ doc, v1Unknown eff ci kv.1 = false) ∧
+    v1ClassWith (fun _ v => pure v.toPy) eff ci (.dict doc) = .error (.unknownKeys ['K'] []) := by
+  refine ⟨by decide, by rfl⟩
 
 end DW.Props.C10
